@@ -137,4 +137,27 @@ int main() {}
         obs.append(Ob(id='C17.mixed-addsub.%s' % tag, prop='C17', group='C17.mixed.%s' % tag, prelude=PRE, wrappers=[wsum, wdif, wcs, wcd], inputs=[(ct, 'a'), (ct, 'b')], body=body,
                       contract='forall a,b for which chrono\'s own computation does not overflow: (duration + quantity) and (quantity - duration), read in the common unit, equal '
                                'the count chrono computes for the same operands', functions_under_contract=('au::operator+(QLike, Quantity)', 'au::operator-(Quantity, QLike)')))
+    # ---- sums and differences with DIFFERENT reps on the two sides (the duration's rep narrower and unsigned, or narrower and signed): each operand is widened to the common rep
+    #      before anything else happens to it, exactly as chrono does
+    for (rq, rd, per) in (('i64', 'u32', 'sec'), ('i64', 'u16', 'milli'), ('i32', 'i16', 'sec'), ('u64', 'u32', 'sec')) + ((('i64', 'i32', 'min'), ('u32', 'u8', 'sec')) if tier == 'thorough' else ()):
+        cq, cd = G.ctype(rq), G.ctype(rd)
+        CRr = G.common(rq, rd); ccr = G.ctype(CRr)
+        tag = '%s_%s_%s' % (rq, rd, per)
+        DD = dur(rd, per); DQ = 'std::chrono::duration<%s>' % cq
+        Q = 'au::make_quantity<au::Seconds>(b)'; CU = 'au::CommonUnitT<%s, au::Seconds>' % unit(per)
+        ws = []
+        checks = []
+        for nm, au_e, ch_e in (('quantity-minus-duration', '%s - %s{a}' % (Q, DD), '%s{b} - %s{a}' % (DQ, DD)), ('duration-minus-quantity', '%s{a} - %s' % (DD, Q), '%s{a} - %s{b}' % (DD, DQ)),
+                               ('quantity-plus-duration', '%s + %s{a}' % (Q, DD), '%s{b} + %s{a}' % (DQ, DD)), ('duration-plus-quantity', '%s{a} + %s' % (DD, Q), '%s{a} + %s{b}' % (DD, DQ))):
+            wa = Wrapper('w_mr_au_%s_%s' % (nm.replace('-', ''), tag), ccr, [(cd, 'a'), (cq, 'b')], 'auto s = %s; return s.in(%s{});' % (au_e, CU))
+            wc = Wrapper('w_mr_ch_%s_%s' % (nm.replace('-', ''), tag), ccr, [(cd, 'a'), (cq, 'b')], 'return (%s).count();' % ch_e)
+            ws += [wa, wc]
+            checks.append('  CHECK(%s(a, b) == %s(a, b), "%s-agrees-with-chrono");' % (wa.name, wc.name, nm))
+        bnd = '(b >= %s && b <= 1000000000)' % ('0' if not G.REPS[rq]['signed'] else '-1000000000')
+        body = '\n  ASSUME(%s);\n%s\n' % (bnd, '\n'.join(checks))
+        obs.append(Ob(id='C17.mixed-addsub-mixedrep.%s' % tag, prop='C17', group='C17.mixedrep.%s' % tag, prelude=PRE, wrappers=ws, inputs=[(cd, 'a'), (cq, 'b')], body=body,
+                      contract='forall a:%s (whole range), |b| <= 10^9 (%s): quantity<Seconds,%s>(b) -/+ duration<%s, ratio<%d,%d>>{a} and the mirrored forms, read in the common unit and the common '
+                               'rep %s, equal the count chrono computes for duration<%s>{b} -/+ the same duration (unsigned results are compared modulo 2^N, as chrono computes them)'
+                               % (cd, cq, cq, cd, PERIODS[per][0], PERIODS[per][1], ccr, cq),
+                      functions_under_contract=('au::operator-(Quantity, QLike)', 'au::operator-(QLike, Quantity)', 'au::operator+(Quantity, QLike)', 'au::operator+(QLike, Quantity)')))
     return obs
